@@ -490,5 +490,19 @@ fn main() {
     let args: Vec<String> = std::env::args().collect();
     let stdout = std::io::stdout();
     let mut out = std::io::BufWriter::new(stdout.lock());
+    #[cfg(feature = "vmem")]
+    if args.len() > 1 && args[1] == "--pagemul" {
+        // C17: `get_page_size_mul(n)` and the length of `default(n)` / `new_zeroed(n)` buffers for the requested minimums
+        use std::io::Write;
+        writeln!(out, "page {}", mutringbuf::vmem_helper::page_size()).unwrap();
+        for a in &args[2..] {
+            let n: usize = a.parse().unwrap();
+            let m = mutringbuf::vmem_helper::get_page_size_mul(n);
+            let l = std::panic::catch_unwind(|| { let b = mutringbuf::ConcurrentHeapRB::<u32>::default(n); let (p, _c) = b.split(); p.buf_len() }).map(|x| x as i64).unwrap_or(-1);
+            let z = std::panic::catch_unwind(|| { let b = unsafe { mutringbuf::LocalHeapRB::<u64>::new_zeroed(n) }; let (p, _c) = b.split(); p.buf_len() }).map(|x| x as i64).unwrap_or(-1);
+            writeln!(out, "pagemul {} {} {} {}", n, m, l, z).unwrap();
+        }
+        return;
+    }
     for f in &args[1..] { run_file(f, &mut out); }
 }
